@@ -2,7 +2,9 @@
 VALUES = [0, 1, 5, -3, True, False, 2.5, 5.0, 5.0005, 5.002, 4.9995, float('nan'), 'abc', 'ABC', 'a,b.c!', 'abc ', '', 'b', [1, 2], [2, 1], [], [1, [2, 3]],
           (1, 2), (), {'a': 1}, {'a': 1.0004}, {1, 2}, {2}, set(), None, [1.0, 2.0004], 'xyz', 3, {'k': 'abc'}, {'k': 'ABC'}, {'k': 1.05}, {'k': 1.0}, [{'k': 'Abc'}], [{'k': 'abc'}],
           # equal only within the tolerance AND built in a different key order; same keys with swapped values
-          {'a': 1.0, 'b': 2.0}, {'b': 2.0004, 'a': 1.0004}, {'b': 1.0, 'a': 2.0}, [{'a': 1.0, 'b': 2.0}], [{'b': 2.0004, 'a': 1.0004}]]
+          {'a': 1.0, 'b': 2.0}, {'b': 2.0004, 'a': 1.0004}, {'b': 1.0, 'a': 2.0}, [{'a': 1.0, 'b': 2.0}], [{'b': 2.0004, 'a': 1.0004}],
+          # the same number of keys but other keys; a key that is missing on one side and holds None on the other
+          {'a': None}, {'b': None}, {'b': 1, 'c': 5}, {'a': None, 'b': 1}, [{'a': None}], ({'b': None},)]
 ERRORS = ['ValueError("boom")', 'ZeroDivisionError("z")']
 
 
